@@ -27,6 +27,9 @@ func VerifNewDirectConnection(conn net.Conn, charset string, collationID mysql.C
 		collation:        collationID,
 		defaultCharset:   charset,
 		defaultCollation: collationID,
+		ackedCharset:     charset,
+		ackedCollation:   collationID,
+		ackedVariables:   mysql.NewSessionVariables(),
 		closed:           sync2.NewAtomicBool(false),
 		sessionVariables: mysql.NewSessionVariables(),
 		capability:       mysql.ClientProtocol41 | mysql.ClientSecureConnection | mysql.ClientTransactions | mysql.ClientLongFlag,
